@@ -203,7 +203,11 @@ func (b *SttsBox) GetSampleNrAtTime(sampleStartTime uint64) (sampleNr uint32, er
 		accTime += timeDelta * uint64(b.SampleCount[i])
 	}
 	// Check if there is a final single zero duration and time matches.
-	if b.SampleTimeDelta[nrEntries-1] == 0 && b.SampleCount[nrEntries-1] == 1 &&
+	last := nrEntries - 1
+	for last >= 0 && b.SampleCount[last] == 0 {
+		last-- // Entries without samples at the end
+	}
+	if last >= 0 && b.SampleTimeDelta[last] == 0 && b.SampleCount[last] == 1 &&
 		sampleStartTime == accTime {
 		return accNr, nil
 	}
